@@ -251,13 +251,51 @@ def run(repo, rep, tier):
     raise Undecided('required_impact vanished')
   rep.fn(g)
   calls = [c for c in au.calls_in(g.node) if norm(c.func) == 'self.estimate_required_impact']
-  okc = len(calls) == 1 and len(calls[0].args) == 1
-  if okc:
-    gctx = FuncCtx.of(g)
-    a = norm(gctx.rd.expand(gctx.node_at(calls[0]), calls[0].args[0])[0])
-    okc = a == 'self.corr'
-  rep.check(okc, 'R3/arguments', 'required_impact = estimate_required_impact(self.corr)', g.qualname, '; '.join(norm(c) for c in calls)[:100],
-            'required_impact is not estimate_required_impact evaluated at the object\'s own correlation', g.loc())
+  gctx = FuncCtx.of(g)
+  if len(calls) != 1:
+    rep.undecided('R3/arguments', 'required_impact', 'expected one call of self.estimate_required_impact (found %d)' % len(calls), g.loc())
+  else:
+    call_ = calls[0]
+    arg_ = call_.args[0] if call_.args else au.kwarg(call_, fe.params[1] if len(fe.params) > 1 else 'corr')
+    if arg_ is not None:
+      ax = gctx.rd.expand(gctx.node_at(call_), arg_)[0]
+      rep.check_term(norm(ax) == 'self.corr', ax, (), 'R3/arguments', 'required_impact = estimate_required_impact(self.corr)', g.qualname, norm(call_)[:100],
+                     'required_impact is not estimate_required_impact evaluated at the object\'s own correlation (it passes `%s`)' % norm(ax)[:60], g.loc())
+    else:
+      # the argument is omitted: what the callee substitutes for it
+      fctx_ = FuncCtx.of(fe)
+      pname_ = fe.params[1] if len(fe.params) > 1 else None
+      subst = []
+      for n_ in fctx_.g.nodes:
+        if n_.kind == 'stmt' and isinstance(n_.ast, ast.Assign) and pname_ and any(isinstance(t_, ast.Name) and t_.id == pname_ for t_ in n_.ast.targets):
+          subst.append((n_, fctx_.rd.expand(n_, n_.ast.value, keep=(pname_,))[0]))
+      if len(subst) != 1:
+        rep.undecided('R3/arguments', 'required_impact', 'estimate_required_impact() is called without the correlation and the callee fills it in in a form that is not followed', g.loc())
+      else:
+        n_, v_ = subst[0]
+        rep.check_term(norm(v_) == 'self.corr', v_, (), 'R3/arguments', 'the omitted correlation defaults to the object\'s own correlation', fe.qualname, norm(n_.ast)[:100],
+                       'estimate_required_impact() substitutes `%s` for the omitted correlation: that is not the object\'s own correlation for every series (a correlation of exactly 0.0 is falsy)' % norm(v_)[:60],
+                       fe.loc(n_.ast))
+  # a correlation of exactly 0.0 (uncorrelated series) is a legitimate value: it must never be tested by truthiness
+  for fn_ in (fe, g):
+    pn_ = fn_.params[1] if fn_ is fe and len(fn_.params) > 1 else None
+    for sub_ in walk_no_nested(fn_.node):
+      tests_ = []
+      if isinstance(sub_, (ast.If, ast.While, ast.IfExp)):
+        tests_.append(sub_.test)
+      if isinstance(sub_, ast.BoolOp):
+        tests_ += sub_.values[:-1] if not isinstance(getattr(sub_, '_parent', None), (ast.If, ast.While, ast.IfExp)) else sub_.values
+      if isinstance(sub_, ast.UnaryOp) and isinstance(sub_.op, ast.Not):
+        tests_.append(sub_.operand)
+      for t_ in tests_:
+        tx_ = norm(t_)
+        if isinstance(t_, ast.Name):
+          at_ = FuncCtx.of(fn_).node_at(t_)
+          if at_ is not None:
+            tx_ = norm(FuncCtx.of(fn_).rd.expand(at_, t_)[0])       # a local holding the correlation (corr = self.corr)
+        if tx_ in ('self.corr', 'self._corr') or (pn_ and isinstance(t_, ast.Name) and t_.id == pn_):
+          rep.violation('R3/arguments', fn_.qualname, 'truthiness of %s' % norm(t_), '%s tests the correlation `%s` by truthiness: a correlation of exactly 0.0 is treated like a missing one'
+                        % (fn_.name, norm(t_)), fn_.loc(t_))
   # R4 cache discipline of the fields on this path (shared with C08)
   from mmsa.props import c08
   sub = type(rep)(rep.prop, rep.tier, rep.repo)
